@@ -81,7 +81,7 @@ Definition tcase_check (c : tcase) : bool :=
   | PParse buf n st =>
       let '(n', st') := parse_package c_maxPackageLength (unhex buf) in (n =? n') && (st =? st')
   | PTmo pkg reply =>
-      match invoke_timeout env0 rq rs c_TUPVERSION (unhex pkg), reply with
+      match invoke_timeout env0 rq rs c_TUPVERSION c_TARSONEWAY (unhex pkg), reply with
       | DOk bs _, Some o => bytes_eqb bs (unhex o)
       | DErr, Some _ => true          (* built from a partially read request: not predicted *)
       | DHuge, Some _ => true
